@@ -185,22 +185,31 @@ fn run_twise(ctx: &Ctx, out: &mut dyn Write) {
     }
 }
 
-/// finding K36: an and-node that lists its (variable-free) true child twice is a legal d-DNNF for the
-/// loader, but remove_unneeded removes the child's sample once per occurrence and panics
+/// K36 (repaired by F13): an and-node that lists its (variable-free) true child twice is a legal d-DNNF
+/// for the loader; before the repair remove_unneeded removed the child's sample once per occurrence
+/// and panicked.  Now a normal run: recorded, replayed in the model, judged by the oracle.
 fn run_repeated_child(out: &mut dyn Write) {
-    let lines: Vec<String> = ["nnf 4 4 2", "A 0", "L 1", "L 2", "A 4 0 0 1 2"].iter().map(|l| l.to_string()).collect();
+    run_repeated_child_file(out, "c09-repeated-child", "x1 & x2 & true & true, the true node listed twice",
+                            &["nnf 4 4 2", "A 0", "L 1", "L 2", "A 4 0 0 1 2"], &[3]);
+    // (x1 | -x1) & (x2 | -x2) with the true node listed twice between the or-nodes
+    run_repeated_child_file(out, "c09-repeated-child-free", "(x1|-x1) & true & (x2|-x2) & true",
+                            &["nnf 8 9 2", "A 0", "L 1", "L -1", "O 1 2 1 2", "L 2", "L -2", "O 2 2 4 5", "A 4 0 3 0 6"], &[0, 1, 2, 3]);
+}
+
+fn run_repeated_child_file(out: &mut dyn Write, id: &str, what: &str, file: &[&str], models: &[u32]) {
+    let lines: Vec<String> = file.iter().map(|l| l.to_string()).collect();
     let mut s = String::new();
-    writeln!(s, "case c09-repeated-child C09").unwrap();
-    writeln!(s, "info hand-made c2d file: x1 & x2 & true & true, the true node listed twice").unwrap();
+    writeln!(s, "case {} C09", id).unwrap();
+    writeln!(s, "info hand-made c2d file: {}", what).unwrap();
     writeln!(s, "n 2").unwrap();
-    writeln!(s, "src_count 1").unwrap();
-    writeln!(s, "src_models 3").unwrap();
+    writeln!(s, "src_count {}", models.len()).unwrap();
+    writeln!(s, "src_models {}", join(models)).unwrap();
     s.push_str(&file_block("c2d", &lines));
     match load(&lines, Some(2)) {
         Err(e) => writeln!(s, "impl panic {}", e).unwrap(),
-        Ok(d) => {
+        Ok(mut d) => {
             s.push_str(&dump_circuit(&d));
-            for t in 1..=2 {
+            for t in 1..=3 {
                 writeln!(s, "op twise {} plain", t).unwrap();
                 twise_log_start();
                 let res = guarded(|| result_text(&d.sample_t_wise(t)));
@@ -216,6 +225,26 @@ fn run_repeated_child(out: &mut dyn Write) {
                 match res {
                     Ok(r) => writeln!(s, "r {}", r).unwrap(),
                     Err(e) => writeln!(s, "panic {}", e).unwrap(),
+                }
+                if t <= 2 {
+                    // the fitness variant shares remove_unneeded
+                    writeln!(s, "op twise {} fitness 1 -1", t).unwrap();
+                    let msg = format!("t-wise l {} f 1 -1", t);
+                    twise_log_start();
+                    let res = guarded(|| stream_text(&d.handle_stream_msg(&msg)));
+                    match twise_log_take() {
+                        Some(log) => {
+                            writeln!(s, "olog {}", log.len()).unwrap();
+                            for l in log {
+                                writeln!(s, "o {}", l).unwrap();
+                            }
+                        }
+                        None => writeln!(s, "olog absent").unwrap(),
+                    }
+                    match res {
+                        Ok(r) => writeln!(s, "r {}", r).unwrap(),
+                        Err(e) => writeln!(s, "panic {}", e).unwrap(),
+                    }
                 }
             }
         }
